@@ -131,6 +131,9 @@ def cases(tier, seed):
     for n in (2, 4, 6):
         for v in range(16):
             out.append({"key": f"stagnate/n={n}/v={v}", "cls": "stagnate", "n": n, "scale": 1.0, "v": v})
+    for n in (8, 12, 16):
+        for k in (3, 5):
+            out.append({"key": f"hermill/n={n}/cond=1e{k}", "cls": "hermill", "n": n, "scale": 1.0, "k": k})
     # fault injection on the path the property names ("lucky breakdown at any Arnoldi step"): the Arnoldi remainder norm of exactly one
     # (cycle m, step j) is replaced by 0 although the Krylov space is NOT invariant; every position is enumerated.  Whatever the solver
     # then returns, the record must tell the truth about it.
@@ -346,6 +349,21 @@ def build(case, seed):
             w[t + 1, 0] = ph  # equal modulus on the two members of a +- pair
         b = O.qmatmul(V, w)
         bs.append(("pm_pairs", b))
+    elif cls == "hermill":
+        # exactly (bitwise) Hermitian, indefinite, ill-conditioned: eigenvalues log-spaced over cond with alternating signs; any short-recurrence
+        # shortcut for Hermitian input loses orthogonality here, full modified Gram-Schmidt does not
+        k = case["k"]
+        lam = [(-1.0) ** t * 10.0 ** (-k * t / (n - 1)) for t in range(n)]
+        fv = G.Fill(seed, stream=hash_tag(f"hermill/{n}/{k}"))
+        V = G.unitary("hh", n, fv, variant=n + k)
+        A = O.qmatmul(O.qmatmul(V, G.diag_real(lam, n, n)), O.qH(V))
+        A = 0.5 * (A + O.qH(A))
+        for t in range(n):
+            A[t, t, 1:] = 0.0
+        b = fv.quat(n, 1, bits=3, lo=-8, hi=8)
+        if not b.any():
+            b[0, 0, 0] = 1.0
+        bs.append(("generic", b))
     elif cls == "neareig":
         lam = [0.01, 1.0, 2.0, -1.5][:n]
         V = G.unitary(case["kind"], n, fill, variant=n)
